@@ -287,6 +287,11 @@ def one_buffer(case, root, b, world, want_files=True):
                       f"buffer_size={b}: {kind}({req}) returned {got} bytes while streaming (bound {bound})")
     res["stream"] = data
     res["multi"] = chunks_seen["multi"]
+    # the same index object streams again, this time with another gap character:
+    # whatever the first pass left behind in it must not show
+    sink2 = Sink()
+    FastaStream(sink2, fi2, line_length=line_length, gap_character=b"n").write_assembly(out_asm)
+    res["stream_again"] = bytes(sink2.data)
     fh = fi2.__dict__.get("fasta_fileandle")
     if fh is not None:
         fh.close()
@@ -336,7 +341,8 @@ def execute_case(case, run_seed, tier, tag=""):
                         ref, ref_b = res, b
                         continue
                     for key, what in (("index", "index"), ("asm", "derived assembly"), ("fai_bytes", ".fai bytes"),
-                                      ("agp_bytes", ".agp bytes"), ("stream", "streamed FASTA bytes")):
+                                      ("agp_bytes", ".agp bytes"), ("stream", "streamed FASTA bytes"),
+                                      ("stream_again", "bytes of a second stream from the same index object (gap character n)")):
                         if res[key] != ref[key]:
                             violations.append({
                                 "oracle": "differential_" + key, "site": what,
